@@ -21,7 +21,7 @@ func init() { suites["recon"] = suiteRecon }
 //   (b) any filter strength: the Lean RFC-6386 decoder's PRE-FILTER planes (op vp8raw) == reconstruction,
 //       when the driver provides that op (otherwise counted as skipped).
 func suiteRecon(rep *Report) error {
-	rep.Rule = "lossy Encode over image class (incl. every 37th case: >= 510 macroblocks of a periodic texture with one or two flat macroblocks, Segments 2..4, SNS > 0 - the segment map is then dropped) x size (incl. non-multiples of 16, 1x1, 320x320, 368x368, 512x512, 1024x144) x Quality x Method 0..6 x Segments 1..4 x Partitions 0..3 x Pass x SNS/filter settings x presets x QMin/QMax x TargetSize/TargetPSNR x sharp YUV, on 1 CPU and 4 CPUs; the encoder's reconstruction planes (hook) are compared with (a) webp.Decode's YCbCr planes when FilterStrength=0 and (b) the Lean spec decoder's pre-loop-filter planes for any strength; decoded size must equal the source size; non-trivial = image not flat"
+	rep.Rule = "lossy Encode over image class (incl. every 19th case: >= 510 macroblocks of a periodic texture with one or two flat macroblocks, Segments 2..4, SNS > 0 - the segment map is then dropped) x size (incl. non-multiples of 16, 1x1, 320x320, 368x368, 512x512, 1024x144) x Quality x Method 0..6 x Segments 1..4 x Partitions 0..3 x Pass x SNS/filter settings x presets x QMin/QMax x TargetSize/TargetPSNR x sharp YUV, on 1 CPU and 4 CPUs; the encoder's reconstruction planes (hook) are compared with (a) webp.Decode's YCbCr planes when FilterStrength=0 and (b) the Lean spec decoder's pre-loop-filter planes for any strength; decoded size must equal the source size; non-trivial = image not flat"
 	defer runtime.GOMAXPROCS(runtime.GOMAXPROCS(0))
 	n := 260
 	if rep.Tier == "thorough" {
@@ -86,23 +86,23 @@ func suiteRecon(rep *Report) error {
 		}
 		procs := []int{1, 4}[r.Intn(2)]
 		idesc := imgDesc(sz[0], sz[1], cls, acls)
-		if i%37 == 5 {
+		if i%19 == 5 {
 			// >= 510 macroblocks of one periodic texture plus one (or two) flat macroblocks, several
 			// segments, SNS on: the segment analysis puts all but < 1/510 of the macroblocks into one
 			// segment, the rounded segment-tree probabilities are all 255 and the encoder drops the
 			// segment map - every macroblock must then be coded with the quantiser the decoder will use
 			r2 := NewRNG(rep.Seed, 0x0600000+uint64(i))
-			sz = [][2]int{{512, 512}, {368, 368}, {512, 512}, {1024, 144}, {368, 384}}[(i/37)%5]
+			sz = [][2]int{{512, 512}, {368, 368}, {512, 512}, {1024, 144}, {368, 384}}[(i/19)%5]
 			var what string
 			img, what = genTextureOutlier(r2, sz[0], sz[1])
 			idesc = fmt.Sprintf("%dx%d/%s", sz[0], sz[1], what)
 			o = webp.DefaultOptions()
 			o.Quality = float32([]int{75, 50, 90, 75, 30}[r2.Intn(5)])
 			o.Method = []int{4, 4, 2, 3, 5, 6, 1, 0}[r2.Intn(8)]
-			o.Segments = 2 + r2.Intn(3)
+			o.Segments = []int{2, 2, 3, 4}[r2.Intn(4)]
 			o.SNSStrength = []int{50, 100, 30, 80}[r2.Intn(4)]
 			o.Partitions = r2.Intn(4)
-			o.FilterStrength = []int{0, 0, 40, 0, 20}[(i/37)%5]
+			o.FilterStrength = []int{0, 0, 40, 0, 20}[(i/19)%5]
 			o.FilterSharpness = r2.Intn(8)
 			procs = []int{1, 4}[r2.Intn(2)]
 			rep.Count("class:texture-with-odd-macroblock")
@@ -164,7 +164,7 @@ func suiteRecon(rep *Report) error {
 			lines = append(lines, "vp8raw "+hx(fr.Payload))
 			pends = append(pends, pend{desc, *rec, short(hx(file), 6000)})
 		}
-		if i%37 == 5 && driverHas("vp8info") {
+		if i%19 == 5 && driverHas("vp8info") {
 			infoLines = append(infoLines, "vp8info "+hx(fr.Payload))
 			infoDesc = append(infoDesc, desc)
 		}
@@ -223,12 +223,15 @@ func genTextureOutlier(r *RNG, w, h int) (*image.NRGBA, string) {
 	for len(odd) < k {
 		odd[[2]int{r.Intn(mbw), r.Intn(mbh)}] = true
 	}
-	a, b, m, base := 3+r.Intn(9), 2+r.Intn(8), 40+r.Intn(50), 60+r.Intn(80)
+	// (experiment on the tree of 2026-09-23: the map is dropped for about 2/3 of these parameter sets
+	// with 2 segments, 1/3 with 3 or 4, provided the amplitude m is >= 60 and the flat value is near
+	// the texture's mean, so that the flat macroblock is the "easy" one)
+	a, b, m, base := 3+r.Intn(9), 2+r.Intn(8), 60+r.Intn(30), 60+r.Intn(80)
 	tint := [3]int{r.Intn(30), r.Intn(30), r.Intn(30)}
 	if r.Chance(1, 2) {
 		tint = [3]int{}
 	}
-	flat := byte(100 + r.Intn(60))
+	flat := byte(base + (m-1)/2 + r.Intn(9) - 4)
 	for y := 0; y < h; y++ {
 		for x := 0; x < w; x++ {
 			v := base + ((x%16)*a+(y%16)*b)%m
